@@ -1,6 +1,7 @@
 // C10 -- whitespace::operations / whitespace::repair are inverse; repair only touches whitespace
 use vstd::prelude::*;
 verus! {
+//@include specs/std_extra.rs
 //@include specs/err.rs
 //@include specs/chars.rs
 //@include specs/ws.rs
